@@ -36,6 +36,7 @@ func main() {
 	disk := fs.Uint64("disk", 20000, "disk size in blocks")
 	dumpEach := fs.Int("dumpeach", 50, "dump every n steps")
 	prop := fs.String("prop", "", "probes: property filter")
+	crashMode := fs.Bool("crashpoints", false, "simple/kvs: enumerate crash points")
 	loss := fs.Int("loss", 2, "crash: random loss sets per barrier window")
 	stride := fs.Int("stride", 1, "crash: probe every n-th event boundary")
 	cont := fs.Int("cont", 3, "crash: continuation segments per workload")
@@ -92,6 +93,22 @@ func main() {
 			cfg := drv.CrashCfg{Seed: *seed*1000 + i, Ops: *steps, DiskSz: *disk, Unstable: i%4 != 3, Profile: profs[i%len(profs)],
 				Avoid: avoidSet(*avoid), Loss: *loss, Stride: *stride, Cont: *cont, Nested: *nested, MaxProbe: *maxprobe}
 			seg = drv.RunCrash(cfg, t, seg)
+		}
+		t.Close()
+		fmt.Printf("events=%d\n", t.N)
+	case "simple", "kvs":
+		t, err := drv.NewTrace(*out)
+		if err != nil {
+			panic(err)
+		}
+		seg := 0
+		for i := 0; i < *nseg; i++ {
+			cfg := drv.SmallCfg{Seed: *seed*1000 + i, Ops: *steps, Crash: *crashMode, Loss: *loss, Avoid: avoidSet(*avoid), DiskSz: *disk}
+			if cmd == "simple" {
+				seg = drv.RunSimple(cfg, t, seg)
+			} else {
+				seg = drv.RunKvs(cfg, t, seg)
+			}
 		}
 		t.Close()
 		fmt.Printf("events=%d\n", t.N)
